@@ -170,6 +170,9 @@ type Exchange struct {
 	Err       error // abort the exchange with a transport error (before or after the server saw it)
 	SkipServe bool  // Pre hook answered itself (Status/RespHeader/RespBody filled in)
 	Served    bool
+	// Panic: the handler panicked while serving this request (when Wire.RecoverPanics is set): as under net/http the
+	// connection is dropped without an answer
+	Panic any
 }
 
 // Wire joins a client transport with a server handler in memory.
@@ -182,6 +185,8 @@ type Wire struct {
 	served int
 	// Serving is the index (in Log) of the exchange whose request the handler is processing right now, -1 if none.
 	Serving int
+	// RecoverPanics: behave like net/http's server: a panic of the handler aborts that one request (no answer)
+	RecoverPanics bool
 }
 
 // NewWire creates a wire to a server.
@@ -224,6 +229,9 @@ func (w *Wire) RoundTrip(req *http.Request) (*http.Response, error) {
 	if x.Err != nil {
 		return nil, x.Err
 	}
+	if x.Panic != nil {
+		return nil, fmt.Errorf("verif: connection aborted (the handler panicked: %v)", x.Panic)
+	}
 	resp := &http.Response{
 		StatusCode: x.Status, Status: fmt.Sprintf("%d %s", x.Status, http.StatusText(x.Status)),
 		Header: x.RespHeader.Clone(), Body: io.NopCloser(bytes.NewReader(x.RespBody)), ContentLength: int64(len(x.RespBody)),
@@ -256,8 +264,21 @@ func (w *Wire) Serve(ctx context.Context, x *Exchange) {
 	w.served++
 	x.Order = w.served
 	w.mu.Unlock()
-	w.H.ServeHTTP(rec, r)
+	func() {
+		if w.RecoverPanics {
+			defer func() {
+				if p := recover(); p != nil {
+					x.Panic = p
+				}
+			}()
+		}
+		w.H.ServeHTTP(rec, r)
+	}()
 	w.Serving = prev
+	if x.Panic != nil {
+		x.Served, x.Status, x.RespHeader, x.RespBody, x.RespType = true, 0, http.Header{}, nil, -1
+		return
+	}
 	x.Served = true
 	x.Status = rec.Code
 	x.RespHeader = rec.Header().Clone()
